@@ -21,6 +21,25 @@ func gen(g *vh.Gen) {
 	}
 }
 
+// genRemoveRace: two sessions to the same recipients; while the second delivers, another client removes what the
+// first one stored (on the memory store inside the delivery's lookup/lock gap).
+func genRemoveRace(g *vh.Gen) {
+	o := smtpd.Opts{Garbage: 0.02, MaxBody: 60}
+	for i := 0; i < g.N(60, 2000); i++ {
+		c, pool := smtpd.GenCfg(g, o)
+		c.DA, c.DS, c.Rej, c.Dis = true, true, "", ""
+		if g.Chance(0.7) {
+			c.Store = "mem"
+		}
+		first := smtpd.GenDialogue(g, c, pool, o)
+		second := first
+		if g.Chance(0.5) {
+			second = smtpd.GenDialogue(g, c, pool, o)
+		}
+		g.Emit("smtprm", append(c.Fields(), vh.H(first)+"+"+vh.H(second))...)
+	}
+}
+
 // genAsm: well-formed dialogues (nothing after QUIT) for the assembled-system stream.
 func genAsm(g *vh.Gen) {
 	o := smtpd.Opts{Garbage: 0.04, MaxBody: 60}
@@ -42,6 +61,8 @@ func exec(kind string, in []string) []string {
 		return smtpd.Exec(in)
 	case "asm":
 		return smtpd.ExecAsm(in)
+	case "smtprm":
+		return smtpd.ExecRemoveRace(in)
 	}
 	return []string{"UNKNOWN-KIND"}
 }
@@ -51,5 +72,5 @@ func main() {
 		smtpd.AsmChild()
 		return
 	}
-	vh.Main(func(g *vh.Gen) { gen(g); genAsm(g) }, exec)
+	vh.Main(func(g *vh.Gen) { gen(g); genRemoveRace(g); genAsm(g) }, exec)
 }
